@@ -260,7 +260,9 @@ def r4_store_side(run, rule="R4"):
     for nd, c in apps:
         gs = facts(scfg, nd.id)
         if Q("binding", True) in gs:
-            ok = ok and Q("srv['binding'] == binding", True) in gs
+            # the appended record itself is the one whose binding is compared
+            ok = ok and len(c.args) == 1 and \
+                Q("%s['binding'] == binding" % unparse(c.args[0]), True) in gs
     run.check(ok, rule, fs.qual + "::binding-filter",
               "a service is kept only if its binding equals the requested one",
               "binding filter changed", fs.loc())
